@@ -61,15 +61,15 @@ def FHDR.enc (h : FHDR) : Outcome Bytes := do
     let c ← ({ h.fCtrl with fOptsLen := fOptsLen } : FCtrl).enc
     ok (leBytes 4 h.devAddr.toNat ++ [c] ++ leBytes 2 h.fCnt.toNat ++ opts)
 
-/-- `FHDR.UnmarshalBinary` into a receiver holding `prev` (FOpts is only assigned when present). -/
-def FHDR.dec (prev : FHDR) (data : Bytes) : Outcome FHDR :=
+/-- `FHDR.UnmarshalBinary` into a receiver holding `prev` (every field is assigned; FOpts is cleared when absent). -/
+def FHDR.dec (_prev : FHDR) (data : Bytes) : Outcome FHDR :=
   if data.length < 7 then err
   else
     let addr := leNat (data.take 4)
     let c := FCtrl.dec (data.getD 4 0)
     let fcnt := leNat ((data.drop 5).take 2)
     ok { devAddr := BitVec.ofNat 32 addr, fCtrl := c, fCnt := BitVec.ofNat 32 fcnt,
-         fOpts := if data.length > 7 then [.data (data.drop 7)] else prev.fOpts }
+         fOpts := if data.length > 7 then [.data (data.drop 7)] else [] }
 
 /-! ### join / rejoin / join-accept -/
 
@@ -108,13 +108,13 @@ def CFList.enc (l : CFList) : Outcome Bytes := do
   ok (b16.take 15 ++ [l.typ])
 
 /-- `CFListChannelPayload.UnmarshalBinary` on a receiver holding `prev` (5 entries). -/
-def cfChannelsDec (prev : List (BitVec 32)) (data : Bytes) : Outcome (List (BitVec 32)) :=
+def cfChannelsDec (_prev : List (BitVec 32)) (data : Bytes) : Outcome (List (BitVec 32)) :=
   if data.length > 15 then err
   else if data.length % 3 != 0 then err
   else
     let n := data.length / 3
     let new := (List.range n).map (fun i => freq100Dec ((data.drop (3*i)).take 3))
-    ok (new ++ prev.drop n)
+    ok (new ++ (List.replicate 5 0).drop n)
 
 /-- the mask loop of `CFListChannelMaskPayload.UnmarshalBinary`: trailing all-zero masks stay pending. -/
 def cfMasksLoop : List (BitVec 16) → (pending acc : List (BitVec 16)) → List (BitVec 16)
@@ -128,9 +128,9 @@ def pairsLE : Bytes → List (BitVec 16)
   | _ => []
 
 /-- `CFListChannelMaskPayload.UnmarshalBinary` (appends to the receiver's existing masks). -/
-def cfMasksDec (prev : List (BitVec 16)) (data : Bytes) : Outcome (List (BitVec 16)) :=
+def cfMasksDec (_prev : List (BitVec 16)) (data : Bytes) : Outcome (List (BitVec 16)) :=
   if data.length > 15 then err
-  else ok (cfMasksLoop (pairsLE data) [] prev)
+  else ok (cfMasksLoop (pairsLE data) [] [])
 
 /-- `CFList.UnmarshalBinary`: always installs a fresh payload struct. -/
 def CFList.dec (data : Bytes) : Outcome CFList :=
@@ -170,7 +170,7 @@ def JoinAccept.enc (p : JoinAccept) : Outcome Bytes :=
 
 /-- `JoinAcceptPayload.UnmarshalBinary` into a receiver holding `prev` (CFList only assigned for 28 bytes;
 on a CFList error the earlier fields have already been assigned, but the error is returned). -/
-def JoinAccept.dec (prev : JoinAccept) (data : Bytes) : Outcome JoinAccept :=
+def JoinAccept.dec (_prev : JoinAccept) (data : Bytes) : Outcome JoinAccept :=
   if data.length != 12 ∧ data.length != 28 then err
   else
     let (o, r2, r1) := dlSettingsDec (data.getD 10 0)
@@ -178,7 +178,7 @@ def JoinAccept.dec (prev : JoinAccept) (data : Bytes) : Outcome JoinAccept :=
       { joinNonce := BitVec.ofNat 32 (leNat (data.take 3)),
         homeNetID := BitVec.ofNat 24 (leNat ((data.drop 3).take 3)),
         devAddr := BitVec.ofNat 32 (leNat ((data.drop 6).take 4)),
-        optNeg := o, rx2dr := r2, rx1off := r1, rxDelay := data.getD 11 0, cfList := prev.cfList }
+        optNeg := o, rx2dr := r2, rx1off := r1, rxDelay := data.getD 11 0, cfList := none }
     if data.length == 28 then do
       let l ← CFList.dec (data.drop 12)
       ok { base with cfList := some l }
@@ -228,7 +228,7 @@ def MacPL.enc : MacPL → Outcome Bytes
   | .data b => ok b
 
 /-- `MACPayload.UnmarshalBinary` into a receiver holding `(ph, pp, pf)`. -/
-def macDec (ph : FHDR) (pp : Option Byte) (pf : List Item) (data : Bytes) : Outcome MacPL :=
+def macDec (ph : FHDR) (_pp : Option Byte) (_pf : List Item) (data : Bytes) : Outcome MacPL :=
   let n := data.length
   if n < 7 then err
   else
@@ -236,10 +236,10 @@ def macDec (ph : FHDR) (pp : Option Byte) (pf : List Item) (data : Bytes) : Outc
     if n < 7 + fol then err
     else do
       let h ← FHDR.dec ph (data.take (7 + fol))
-      let fPort : Option Byte := if n > 7 + fol then some (data.getD (7 + fol) 0) else pp
+      let fPort : Option Byte := if n > 7 + fol then some (data.getD (7 + fol) 0) else none
       if n > 7 + fol ∧ data.getD (7 + fol) 0 == 0 ∧ fol > 0 then err
       else if n > 7 + fol + 1 then ok (.mac h fPort [.data (data.drop (7 + fol + 1))])
-      else ok (.mac h fPort pf)
+      else ok (.mac h fPort [])
 
 structure PHY where
   mtype : Byte := 0
